@@ -47,18 +47,77 @@ impl Fee {
 
 struct W {
     b: Built,
-    fee_a: Fee,
-    fee_b: Fee,
+}
+
+/// The transfer fee Token-2022 applies to `mint` at the ledger's epoch, from the harness's own reading of the mint's
+/// TransferFeeConfig (TLV type 1: two authorities, withheld amount, older {epoch, maximum, bps}, newer {epoch, maximum, bps}):
+/// the newer schedule from its epoch on, the older one before.
+fn fee_at(l: &Ledger, mint: &solana_program::pubkey::Pubkey) -> Fee {
+    let d = l.data(mint);
+    let mut o = 166usize;
+    while o + 4 <= d.len() {
+        let ty = u16::from_le_bytes([d[o], d[o + 1]]);
+        let len = u16::from_le_bytes([d[o + 2], d[o + 3]]) as usize;
+        let body = &d[o + 4..(o + 4 + len).min(d.len())];
+        if ty == 1 && body.len() >= 108 {
+            let u64at = |i: usize| u64::from_le_bytes(body[i..i + 8].try_into().unwrap());
+            let u16at = |i: usize| u16::from_le_bytes(body[i..i + 2].try_into().unwrap());
+            let older = Fee { bps: u16at(72 + 16), max: u64at(72 + 8) };
+            let (newer_epoch, newer) = (u64at(90), Fee { bps: u16at(90 + 16), max: u64at(90 + 8) });
+            return if l.epoch >= newer_epoch { newer } else { older };
+        }
+        if ty == 0 {
+            break;
+        }
+        o += 4 + len;
+    }
+    Fee { bps: 0, max: 0 }
+}
+/// (older != newer, newer epoch) of a mint's schedule
+fn schedule(l: &Ledger, mint: &solana_program::pubkey::Pubkey) -> Option<(bool, u64)> {
+    let d = l.data(mint);
+    let mut o = 166usize;
+    while o + 4 <= d.len() {
+        let ty = u16::from_le_bytes([d[o], d[o + 1]]);
+        let len = u16::from_le_bytes([d[o + 2], d[o + 3]]) as usize;
+        let body = &d[o + 4..(o + 4 + len).min(d.len())];
+        if ty == 1 && body.len() >= 108 {
+            return Some((body[80..90] != body[98..108], u64::from_le_bytes(body[90..98].try_into().unwrap())));
+        }
+        if ty == 0 {
+            break;
+        }
+        o += 4 + len;
+    }
+    None
+}
+impl W {
+    fn fee_a(&self, l: &Ledger) -> Fee {
+        fee_at(l, &self.b.w.pool.mint_a)
+    }
+    fn fee_b(&self, l: &Ledger) -> Fee {
+        fee_at(l, &self.b.w.pool.mint_b)
+    }
 }
 
 fn mk(label: &str, fa: Fee, fb: Fee, roots: &[(&'static str, Vec<Op>)]) -> W {
-    W { b: stdworlds::build_with_roots(&stdworlds::t22_spec(label, fa.bps, fa.max, fb.bps, fb.max), roots), fee_a: fa, fee_b: fb }
+    W { b: stdworlds::build_with_roots(&stdworlds::t22_spec(label, fa.bps, fa.max, fb.bps, fb.max), roots) }
 }
 
 fn worlds(thorough: bool) -> Vec<W> {
     let roots = stdworlds::std_roots();
     let mut v = vec![mk("c16-t22-100-5000", Fee { bps: 100, max: 5_000 }, Fee { bps: 5_000, max: u64::MAX }, &roots[..4])];
     v.push(mk("c16-t22-1-10000", Fee { bps: 1, max: u64::MAX }, Fee { bps: 10_000, max: 1_000 }, &roots[1..3]));
+    // a fee change is pending on both mints (SetTransferFee two epochs ago minus one): the alphabet's Epoch op walks through
+    // "the epoch before", "the epoch the newer schedule starts" and "after" — older != newer, so the schedule selection shows
+    let mut eve = roots[1].1.clone();
+    eve.push(Op::SetTransferFee { a: true, bps: 500, max: 1_000_000 });
+    eve.push(Op::SetTransferFee { a: false, bps: 10, max: 77 });
+    eve.push(Op::Epoch(1));
+    let mut eve_laden = roots[2].1.clone();
+    eve_laden.extend_from_slice(&eve[roots[1].1.len()..]);
+    let sched_roots: Vec<(&'static str, Vec<Op>)> = vec![("fee-change-pending", eve), ("fee-change-pending-fee-laden", eve_laden)];
+    v.push(mk("c16-t22-sched", Fee { bps: 100, max: 5_000 }, Fee { bps: 5_000, max: u64::MAX }, &sched_roots));
     if thorough {
         v.push(mk("c16-t22-0-9999", Fee { bps: 0, max: 0 }, Fee { bps: 9_999, max: 123_456 }, &roots[..4]));
         v.push(mk("c16-t22-250-1", Fee { bps: 250, max: 1 }, Fee { bps: 33, max: 77 }, &roots[..4]));
@@ -66,8 +125,11 @@ fn worlds(thorough: bool) -> Vec<W> {
     v
 }
 
-fn alphabet(_b: &Built) -> Vec<Op> {
+fn alphabet(b: &Built) -> Vec<Op> {
     let mut a = vec![];
+    if b.name.contains("sched") {
+        a.push(Op::Epoch(1));
+    }
     for a_to_b in [true, false] {
         a.push(Op::Swap { a_to_b, exact_in: true, amount: 1_000_000, lim: Lim::None, v2: true });
         a.push(Op::Swap { a_to_b, exact_in: false, amount: 100_000, lim: Lim::None, v2: true });
@@ -107,6 +169,9 @@ struct Stats {
     bound_failures: u64,
     repos_tight_max: u64,
     repos_tight_max_with_fee: u64,
+    at_switch_epoch: u64,
+    before_switch_epoch: u64,
+    after_switch_epoch: u64,
     c03: C03Stats,
 }
 
@@ -118,7 +183,7 @@ fn least_preimage_ok(f: &Fee, paid: u64, need: u64) -> bool {
 fn swap_oracle(wd: &W, pre: &Ledger, st: &Stepped, a_to_b: bool, exact_in: bool, amount: u64, limit: u128, v2ix: &dyn Fn(u64) -> solana_program::instruction::Instruction, s: &mut Stats) -> Result<(), String> {
     let w = &wd.b.w;
     let post = &st.ledger;
-    let (fin, fout) = if a_to_b { (wd.fee_a, wd.fee_b) } else { (wd.fee_b, wd.fee_a) };
+    let (fin, fout) = if a_to_b { (wd.fee_a(pre), wd.fee_b(pre)) } else { (wd.fee_b(pre), wd.fee_a(pre)) };
     let o = oracles::observe_swap(pre, post, w, a_to_b, exact_in, amount, limit);
     let mut curve_in = BigUint::zero();
     let mut curve_out = BigUint::zero();
@@ -222,7 +287,7 @@ fn liq_oracle(wd: &W, pre: &Ledger, st: &Stepped, pos: usize, liq: u128, increas
     if increase {
         s.incs += 1;
         // the owner pays the smallest amounts whose fee-reduced values are what the vault needs
-        if !least_preimage_ok(&wd.fee_a, wa, va) || !least_preimage_ok(&wd.fee_b, wb, vb) {
+        if !least_preimage_ok(&wd.fee_a(pre), wa, va) || !least_preimage_ok(&wd.fee_b(pre), wb, vb) {
             return Err(format!("increase: owner paid {wa}/{wb} for vault amounts {va}/{vb}: not the smallest fee-including amounts"));
         }
         if e.a != wa || e.b != wb || e.fee_a != wa - va || e.fee_b != wb - vb || e.liquidity != liq || !e.increased {
@@ -230,7 +295,7 @@ fn liq_oracle(wd: &W, pre: &Ledger, st: &Stepped, pos: usize, liq: u128, increas
         }
     } else {
         s.decs += 1;
-        if wa != wd.fee_a.net(va) || wb != wd.fee_b.net(vb) {
+        if wa != wd.fee_a(pre).net(va) || wb != wd.fee_b(pre).net(vb) {
             return Err(format!("decrease: vault paid {va}/{vb} but the owner received {wa}/{wb}"));
         }
         if e.a != va || e.b != vb || e.fee_a != va - wa || e.fee_b != vb - wb || e.liquidity != liq || e.increased {
@@ -279,7 +344,7 @@ fn repos_oracle(wd: &W, pre: &Ledger, st: &Stepped, pos: usize, new_lower: i32, 
     let expect = [toi(na.ceil()) - toi(oa.floor()), toi(nb.ceil()) - toi(ob.floor())];
     let vault = [w.pool.vault_a, w.pool.vault_b];
     let wallet = [w.lp.acct_a, w.lp.acct_b];
-    let fee = [wd.fee_a, wd.fee_b];
+    let fee = [wd.fee_a(pre), wd.fee_b(pre)];
     for t in 0..2 {
         let dv = balance(post, &vault[t]) as i128 - balance(pre, &vault[t]) as i128;
         let dw = balance(pre, &wallet[t]) as i128 - balance(post, &wallet[t]) as i128; // positive = owner paid
@@ -364,7 +429,19 @@ fn model<'a>(wd: &'a W, stats: &'a Mutex<Stats>) -> PoolModel<'a> {
                 }
                 _ => Ok(()),
             };
+            if matches!(op, Op::Swap { .. } | Op::Inc { .. } | Op::Dec { .. } | Op::Repos { .. }) {
+                if let Some((true, e)) = schedule(pre, &w.pool.mint_a) {
+                    match pre.epoch.cmp(&e) {
+                        std::cmp::Ordering::Less => local.before_switch_epoch += 1,
+                        std::cmp::Ordering::Equal => local.at_switch_epoch += 1,
+                        std::cmp::Ordering::Greater => local.after_switch_epoch += 1,
+                    }
+                }
+            }
             let mut g = stats.lock().unwrap();
+            g.at_switch_epoch += local.at_switch_epoch;
+            g.before_switch_epoch += local.before_switch_epoch;
+            g.after_switch_epoch += local.after_switch_epoch;
             g.swaps += local.swaps;
             g.swaps_partial_exact_in += local.swaps_partial_exact_in;
             g.swaps_exact_out += local.swaps_exact_out;
@@ -412,11 +489,14 @@ pub fn run(ctx: &Ctx) -> Report {
         r.guard("handler_decreases_checked", s.decs);
         r.guard("handler_bound_failures_seen", s.bound_failures);
         r.guard("handler_reposition_tight_maximum_reruns", s.repos_tight_max);
+        r.guard("handler_ops_in_the_epoch_before_a_pending_fee_change", s.before_switch_epoch);
+        r.guard("handler_ops_in_the_epoch_the_newer_fee_starts", s.at_switch_epoch);
+        r.guard("handler_ops_after_the_newer_fee_started", s.after_switch_epoch);
         r.guard("handler_reposition_tight_maximum_reruns_with_transfer_fee", s.repos_tight_max_with_fee);
     }
     r.set("exhaustive", false);
     r.assume("svm-lite faithfully replaces the validator (DESIGN §2.1); the Token-2022 processor is the real one (withheld fees stay in the recipient account, so `amount` deltas are the net amounts)");
-    r.assume("handler-level worlds use one fee schedule per mint (older == newer); epoch selection is covered at function level");
+    r.assume("the fee reference reads the mint's TransferFeeConfig with the harness's own TLV reader and selects newer from newer.epoch on (Token-2022's rule; the real token-2022 processor moves the tokens)");
     r
 }
 
